@@ -57,6 +57,8 @@ def conclude(spec, cfgs, tot, tier, seed, t0):
         cands = sorted(by_clause[clause], key=lambda vr: (sum(1 for c in vr["choices"] if c), len(vr["choices"]), vr["cfg"], vr["choices"]))
         vr = cands[seed % min(len(cands), 3)] if seed else cands[0]
         cfg = cfgs[vr["cfg"]]
+        if vr.get("cfg_override"):
+            cfg = dict(cfg, **vr["cfg_override"])   # explicit-state engine: the event bound of the violating replay
         try:
             best = explore.minimise(spec, cfg, vr["choices"], clause)
         except env.HarnessError:
@@ -75,7 +77,8 @@ def conclude(spec, cfgs, tot, tier, seed, t0):
         print("VIOLATION property=%s replay=%s" % (pid, path))
         print("  clause=%s config=%s detail=%s" % (clause, json.load(open(path))["config"].get("name"), json.dumps(harness._js(v.detail))[:400]))
     # ---- evidence -----------------------------------------------------------------------------------
-    exhaustive = not tot["capped"] and not tot.get("depth_capped") and not tot.get("stopped_after_violation")
+    exhaustive = not tot["capped"] and not tot.get("depth_capped") and not tot.get("stopped_after_violation") \
+        and all(e["complete"] for e in tot.get("explicit", []))
     cov = {
         "states": len(tot["states"]), "transitions": len(tot["transitions"]),
         "traces_validated_against_impl": tot["validated"],
@@ -102,9 +105,17 @@ def conclude(spec, cfgs, tot, tier, seed, t0):
         "monitor_counters": tot["counters"],
         "known_findings_hit": {k: v["n"] for k, v in known.items()},
         "workers": explore.NWORKERS,
+        "explicit_state_search": tot.get("explicit", []),
     }
+    for e in tot.get("explicit", []):
+        cov["states"] += e["states"]
+        cov["transitions"] += e["transitions"]
+        cov["evaluations"] += e["executions"]
     wall = time.time() - t0
     write_evidence(spec, tier, seed, cov, list(spec.assumptions), wall, len(printed))
+    for e in tot.get("explicit", []):
+        print("  explicit-state %s: %d states, %d transitions, depth %d, complete=%s, stateless-subset-check=%s, %.1fs" % (
+            e["config"], e["states"], e["transitions"], e["depth"], e["complete"], e["cross_check"], e["wall_s"]))
     print("%s %s: %d configurations, %d executions, %d states, %d transitions, %d distinct nontrivial, "
           "%d validated, %.1fs, exhaustive=%s%s" % (
               pid, tier, len(cfgs), tot["evaluations"], cov["states"], cov["transitions"],
